@@ -534,7 +534,7 @@ var c11Bridge = core.Mon(c11, "bridge", func(w *core.W, c *BridgeCase) {
 	}
 	inv := log[0]
 	if c.Sig.Ctx {
-		if inv.Ctx == nil || inv.Ctx.Value(ctxKey{}) != token {
+		if inv.Ctx == nil || inv.Ctx != ctx || inv.Ctx.Value(ctxKey{}) != token {
 			w.Violation("bridge", "C11/context", c, "the caller's context", fmt.Sprint(inv.Ctx), desc)
 			return
 		}
